@@ -1,4 +1,5 @@
 import GeffProofs.SpecDecode
+import GeffProofs.StoreTree
 /-! # C02 — the on-disk layout means what docs/specification.md says, in both directions
 
 Property theorems only.  Specification: `Geff.Spec.denote` (`GeffModel/SpecDecode.lean`) — the graph a
@@ -43,21 +44,20 @@ theorem find_map_propD (ps : Props) (k : String) :
     · simp only [h, if_false, decide_false]; exact ih
 
 /-- **C02, first direction (library writer → specification-only decoder).**  For every target holding
-nothing of a geff yet, every well-formed graph (as in C01) and consistent caller metadata: the store
-`write_arrays` produces is laid out as docs/specification.md says (`denote` is defined on it) and
-denotes exactly the graph given to the writer — same directedness, ids and edges, and for every
-property the same cells, missing ones absent.
-
-PARTIAL with respect to the property text, which continues "… and is accepted by the library's
-structural validation": the full statement has the further conjunct `validateStructure s' = ok` for
-C04's model of `validate_structure`.  Missing: the bridge from the flat store `St` to C04's nested
-store type and the proof that the written store is `Conformant` there (then `C04_sound_complete` gives
-acceptance).  The harness runs the real `validate_structure` on every written store and it must accept. -/
-theorem C02_writer_conforms_partial (s0 : St) (g : InMem) (md : CallerMeta) (n e : Nat) (nps eps : Props)
-    (hfresh : Fresh s0) (hwf : WFGeff g n e nps eps) (hax : AxesOK md n nps) :
-    ∃ s', writeCore vlenCodec s0 g md = .ok s' ∧ ∃ G, denote s' = some G ∧
-      SameGraph G (graphOfInput md.directed g.nodeIds g.edgeIds (expectedNodeProps md n nps) eps) := by
-  obtain ⟨hnd, hw, hchk⟩ := expected_spec md n nps hwf.nodeNames hwf.nodeOK hax
+nothing of a geff yet, every well-formed graph (as in C01), caller metadata naming only properties that
+get written and axes as the specification wants them: the store `write_arrays` produces is laid out as
+docs/specification.md says (`denote` is defined on it), denotes exactly the graph given to the writer —
+same directedness, ids and edges, and for every property the same cells, missing ones absent — **and is
+accepted by the library's structural validation** (`Geff.Bridge.validate`: C04's model of
+`validate_structure`, sound and complete by `C04_sound_complete`, on the tree view of the store). -/
+theorem C02_writer_conforms (s0 : St) (g : InMem) (md : CallerMeta) (n e : Nat) (nps eps : Props)
+    (hfresh : Fresh s0) (hwf : WFGeff g n e nps eps) (hax : Geff.Bridge.AxesStrict md n nps)
+    (hmdN : ∀ kv ∈ md.nodeProps, kv.1 ∈ (expectedNodeProps md n nps).map (·.1))
+    (hmdE : ∀ kv ∈ md.edgeProps, kv.1 ∈ eps.map (·.1)) :
+    ∃ s', writeArrays vlenCodec Geff.Bridge.validate s0 g md = .ok s' ∧ Geff.Bridge.validate s' = .ok () ∧
+      ∃ G, denote s' = some G ∧
+        SameGraph G (graphOfInput md.directed g.nodeIds g.edgeIds (expectedNodeProps md n nps) eps) := by
+  obtain ⟨hnd, hw, hchk⟩ := expected_spec md n nps hwf.nodeNames hwf.nodeOK hax.ok
   have hrows := expected_rows md n nps hwf.nodeNames hwf.nodeOK
   have hlen : g.nodeIds.len?.isSome = true := by unfold NdArr.len?; rw [hwf.nodeShape]; rfl
   obtain ⟨s', hwrite, hW⟩ := writeCore_spec vlenCodec vlenCodec_lawful s0 g md (expectedNodeProps md n nps) eps hfresh
@@ -66,7 +66,10 @@ theorem C02_writer_conforms_partial (s0 : St) (g : InMem) (md : CallerMeta) (n e
   obtain ⟨G, hG, h1, h2, h3, h4, h5, h6⟩ := denote_of_written s0 s' g.nodeIds g.edgeIds n e (expectedNodeProps md n nps)
     eps md hW hwf.nodeShape hwf.edgeShape hwf.idInt hwf.idSame hwf.nodeIdsWF hwf.edgeIdsWF hnd
     (fun kp hm => ⟨hw kp hm, hrows kp hm⟩) hwf.edgeNames hwf.edgeOK
-  refine ⟨s', hwrite, G, hG, h1, h2, h3, h4, ?_, ?_⟩
+  have hval := Geff.Bridge.validate_written s0 s' g md n e nps eps hwf hax hmdN hmdE hW
+  refine ⟨s', ?_, hval, G, hG, h1, h2, h3, h4, ?_, ?_⟩
+  · unfold writeArrays
+    simp only [hwrite, hval, bind, Except.bind, pure, Except.pure]
   · intro k; rw [h5 k]; exact (find_map_propD _ k).symm
   · intro k; rw [h6 k]; exact (find_map_propD _ k).symm
 
@@ -81,16 +84,18 @@ theorem C02_reader_accepts_all_conformant (s : St) (hfit : IntsFit s) (G : Graph
     ∃ r, readCore vlenCodec s = .ok r ∧ graphOf r = G :=
   readCore_of_denote s hfit G h
 
-/-- the same with structural validation on (the default of `read_to_memory`) — PARTIAL: `validate` is a
-parameter standing for C04's model of `validate_structure`, and that it accepts this conformant store is
-the named hypothesis `hval`.  Missing: deriving `hval` from `denote s = some G` through
-`C04_sound_complete` (needs the bridge between the two store types and `denote`-conformant ⊆
-C04-`Conformant`; they differ at least on offset tables of a dtype other than uint64 — the known finding).
-The harness reads every independent store with the real validator on; where that failed on the unrepaired
-tree it was D5 / D19 / the int64 offset table. -/
-theorem C02_reader_accepts_all_conformant_validated_partial (validate : St → Outcome Unit) (s : St) (hfit : IntsFit s)
-    (G : Graph) (h : denote s = some G) (hval : validate s = .ok ()) :
-    ∃ r, readToMemory vlenCodec validate s = .ok r ∧ graphOf r = G := by
+/-- the same with structural validation on (the default of `read_to_memory`; `Geff.Bridge.validate` = C04's
+model of `validate_structure` on the tree view) — PARTIAL: that the validator accepts this conformant store
+is the hypothesis `hval`.  Full statement: without `hval`.  It is **false** as it stands, and the
+counterexample is the recorded known finding: `exStore` below has an int64 offset table, as the
+specification's example prescribes; `denote` is defined on it, the validator refuses it
+(`validator_rejects_int64_table`).  Also not derivable: `denote` tolerates metadata entries without a
+property group, the validator does not.  What is missing for the rest is the inclusion
+`denote`-conformant ∧ uint64 tables ∧ metadata keys = property groups ⊆ C04-`Conformant`.  The harness
+reads every independent store with the real validator on. -/
+theorem C02_reader_accepts_all_conformant_validated_partial (s : St) (hfit : IntsFit s)
+    (G : Graph) (h : denote s = some G) (hval : Geff.Bridge.validate s = .ok ()) :
+    ∃ r, readToMemory vlenCodec Geff.Bridge.validate s = .ok r ∧ graphOf r = G := by
   obtain ⟨r, hr, hg⟩ := readCore_of_denote s hfit G h
   exact ⟨r, by unfold readToMemory; simp only [hval, hr, bind, Except.bind], hg⟩
 
@@ -123,6 +128,15 @@ example : (match readCore vlenCodec exStore with | .ok r => decide (some (graphO
   decide
 
 example : IntsFit exStore := intsFit_of_bool _ (by decide)
+
+/-- the known finding as a theorem about the models: a store with an int64 offset table (the dtype the
+specification's example shows) denotes a graph, the reader (validation off) returns it, and the
+structural validator refuses it -/
+theorem validator_rejects_int64_table :
+    (denote exStore).isSome = true ∧ Geff.Bridge.validate exStore = .error .valueError := by
+  constructor
+  · decide
+  · rfl
 
 /-- sensitivity: the decoder notices the symmetric mistakes a same-library round trip cannot see —
 swapped edge columns change the graph; `props` stored under another name, a missing `data`, a mask of
